@@ -149,3 +149,34 @@ pub fn parse_block_err(m: &str) -> (String, String) {
         .unwrap_or_default();
     (ty, msg)
 }
+
+/// (block type, rule id, snapshot text) out of the Debug rendering of a BlockError inside the error returned by `build`
+pub fn parse_block_full(m: &str) -> (String, String, String) {
+    let (ty, _) = parse_block_err(m);
+    let rule = m
+        .split("rule: Some(")
+        .nth(1)
+        .and_then(|x| x.split("id: \"").nth(1))
+        .map(|x| x.split('"').next().unwrap_or("").to_string())
+        .unwrap_or_else(|| "-".into());
+    let snap = m
+        .split("snapshot_value: Some(")
+        .nth(1)
+        .map(|x| x.split(')').next().unwrap_or("").to_string())
+        .unwrap_or_else(|| "-".into());
+    (ty, rule, snap)
+}
+
+/// "4.0" -> "4", "3" -> "3", "2.5" -> "5/2" (exact), used for snapshot values
+pub fn snap_norm(s: &str) -> String {
+    match s.parse::<f64>() {
+        Ok(v) => {
+            let e = f64_exact(v);
+            match e.strip_suffix("/1") {
+                Some(n) => n.to_string(),
+                None => e,
+            }
+        }
+        Err(_) => s.to_string(),
+    }
+}
